@@ -37,10 +37,10 @@ REQUIRED_MONITORS = ["F-matches-own-geometry", "DF-matches-own-geometry", "invF-
                      "invDF-times-DF", "detDF-is-det", "F-hits-mesh-nodes", "G-on-neighbour-facet", "facet-measure",
                      "normal-unit", "normal-orthogonal", "normal-outward", "divergence-theorem-cell",
                      "divergence-theorem-mesh", "affine-equals-isoparametric", "subset-spellings-agree",
-                     "facetbasis-normals-dx"]
+                     "facetbasis-normals-dx", "unit-scaling-law"]
 REQUIRED_REACH = ["per-cell-layout", "tind-none", "tind-permuted", "tind-repeated", "curved-mesh", "mirrored-mesh",
                   "interior-facets", "newton-inverse-nontrivial", "affine-flag-flipped", "many-points-per-cell", "same-points-other-subset",
-                  "mesh-in-small-units", "empty-subset", "closed-cell-points", "oriented-facet-set", "per-facet-points",
+                  "mesh-in-small-units", "mesh-in-large-units", "unit-scaling-laws", "empty-subset", "closed-cell-points", "oriented-facet-set", "per-facet-points",
                   "mapping-built-for-a-cell-subset"]
 
 
@@ -652,6 +652,69 @@ def affine_vs_iso(ctx, k, kind):
     ctx.close("affine-equals-isoparametric", a, b, rtol=1e-11, scale=1.0, mech=f"aff-iso:normals:{kind}", method="normals")
 
 
+UNIT_EXPONENTS = (-60, -40, -20, 20, 40, 60)
+
+
+def unit_laws(ctx, k, kind):
+    from dataclasses import replace
+    """The statement holds for every mesh, in whatever unit its coordinates are given: nanometres and light-years in metres.
+    Scaling all coordinates by a power of two is exact in floating point, so every delivered quantity must follow its
+    scaling law to rounding: F, G ~ u, DF ~ u, invDF ~ 1/u, detDF ~ u^d, detDG ~ u^(d-1), normals and invF unchanged
+    (unit normals stay unit, the boundary integral of x.n stays d times the volume)."""
+    rng = ctx.rng()
+    mc, geom = make_case(ctx, rng, kind, k)
+    mesh = mc.mesh
+    d = GEO.REFDIM[kind]
+    nt = mesh.t.shape[1]
+    m0 = mesh.mapping()
+    mname, cname = type(m0).__name__, type(mesh).__name__
+    X = GEO.random_ref_points(rng, kind, 5)
+    cells = rng.permutation(nt)[:min(nt, 6)].astype(np.int32)
+    base = {"F": m0.F(X, cells), "DF": m0.DF(X, cells), "invDF": m0.invDF(X, cells), "detDF": m0.detDF(X, cells)}
+    law = {"F": 1, "DF": 1, "invDF": -1, "detDF": d}
+    facets = kind != "wedge"
+    if facets:
+        brd = mesh.elem.refdom.brefdom
+        Xb, Wb = ref_facet_rule(brd, d, nq=3)
+        f2t, t2f = np.asarray(mesh.f2t), np.asarray(mesh.t2f)
+        fs = rng.permutation(mesh.facets.shape[1])[:min(mesh.facets.shape[1], 6)].astype(np.int32)
+        cs = f2t[0, fs].astype(np.int32)
+        base["G"] = m0.G(Xb, fs)
+        base["detDG"] = m0.detDG(Xb, fs)
+        Y0 = m0.invF(base["G"], cs)
+        base["normals"] = m0.normals(Y0, cs, fs, t2f)
+        law.update({"G": 1, "detDG": d - 1, "normals": 0})
+    for e in UNIT_EXPONENTS:
+        u = 2.0 ** e
+        mu = replace(mesh, doflocs=np.asarray(mesh.doflocs) * u)
+        tag = dict(mesh=cname, mapping=mname, geom=geom, unit=f"2^{e}", desc=mc.desc)
+        try:
+            mp = mu.mapping()
+            got = {"F": mp.F(X, cells), "DF": mp.DF(X, cells), "invDF": mp.invDF(X, cells), "detDF": mp.detDF(X, cells)}
+            if facets:
+                got["G"] = mp.G(Xb, fs)
+                got["detDG"] = mp.detDG(Xb, fs)
+                Y = mp.invF(got["G"], cs)
+                got["normals"] = mp.normals(Y, cs, fs, t2f)
+                ctx.close("invF-F-identity", Y, Y0, rtol=1e-8, scale=1.0, mech=f"unit-law:invF:{mname}", **tag)
+            Xback = mp.invF(got["F"], cells)
+            ctx.close("invF-F-identity", Xback, np.broadcast_to(X[:, None, :], Xback.shape), rtol=1e-8, scale=1.0,
+                      mech=f"unit-law:invF:{mname}", **tag)
+        except Exception as ex:
+            ctx.check("unit-scaling-law", False, mech=f"mapping-raises-in-other-units:{mname}", error=repr(ex)[:200], **tag)
+            continue
+        for name, b in base.items():
+            ref = np.asarray(b) * u ** law[name]
+            ctx.close("unit-scaling-law", got[name], ref, rtol=1e-10 if name != "normals" else 1e-9,
+                      scale=float(np.abs(ref).max()) + 1e-300, mech=f"unit-law:{name}:{mname}", quantity=name, **tag)
+        if facets:
+            ctx.close("normal-unit", np.linalg.norm(got["normals"], axis=0), np.ones(got["normals"].shape[1:]), rtol=1e-12,
+                      scale=1.0, mech=f"normal-unit:{mname}", **tag)
+    ctx.reached("mesh-in-large-units")
+    ctx.reached("unit-scaling-laws")
+    ctx.nontrivial(cname, mname, geom)
+
+
 def fam(fn, kind):
     return lambda ctx, k: fn(ctx, k, kind)
 
@@ -664,5 +727,8 @@ for kd, q, th in (("line", 4, 80), ("tri", 10, 320), ("quad", 10, 320), ("tet", 
     FAMILIES.append(Family("divergence-" + kd, fam(divergence, kd), q, th))
 for kd, q, th in (("line", 4, 80), ("tri", 8, 240), ("tet", 6, 160)):
     FAMILIES.append(Family("affine-vs-iso-" + kd, fam(affine_vs_iso, kd), q, th))
+
+for kd, q, th in (("line", 3, 40), ("tri", 6, 120), ("quad", 6, 120), ("tet", 5, 100), ("hex", 5, 80), ("wedge", 2, 30)):
+    FAMILIES.append(Family("units-" + kd, fam(unit_laws, kd), q, th))
 
 SUITE = True   # thorough tier also runs the repository suite with this oracle attached (rv/suite_monitors.py)
